@@ -180,11 +180,11 @@ class SourceRepository(Repository):
 
             # Check if any this directory contains any marker directories.
             if not is_excluded:
-                for dir_ in list(dirs):
-                    if dir_ in self.marker_files:
-                        dirs.remove(dir_)
-                        is_excluded = True
-                        break
+                if any(dir_ in self.marker_files for dir_ in dirs):
+                    dirs[:] = [
+                        dir_ for dir_ in dirs if dir_ not in self.marker_files
+                    ]
+                    is_excluded = True
                 else:
                     for file_ in files:
                         if file_ in self.marker_files:
